@@ -113,6 +113,9 @@ type valObs struct {
 	Doc     *ast.QueryDocument
 }
 
+// validateFirstOn: when set, validateReal validates every parsed document against this schema before the one asked for
+var validateFirstOn *ast.Schema
+
 func validateReal(schema *ast.Schema, text string) (o valObs) {
 	defer guard("parser.ParseQuery + validator.Validate", text)()
 	defer func() {
@@ -126,6 +129,11 @@ func validateReal(schema *ast.Schema, text string) (o valObs) {
 	}
 	o.ParseOK = true
 	o.Doc = doc
+	if validateFirstOn != nil {
+		// a document kept from before a schema change: validated against the OTHER schema first, then against the
+		// one that counts (the verdict is about the last one only)
+		validator.Validate(validateFirstOn, doc)
+	}
 	o.Errs = validator.Validate(schema, doc)
 	seen := map[string]bool{}
 	for _, e := range o.Errs {
@@ -406,6 +414,27 @@ func checkC08(c *core.Ctx) {
 				return
 			}
 			c.Logf("small scope: every document with at most %d selections over the small schema: %d documents decided by Rules.tla", budget, len(docs))
+			// the same documents (every fifth) kept across a schema change: validated against a variant of the schema
+			// first (fields removed, added, retyped; an argument retyped), then against the small schema, whose
+			// rules alone decide
+			if l2, other, crash2 := loadReal([]*ast.Source{{Name: "small2.graphql", Input: smallSDLBefore}}); crash2 == "" && l2.OK {
+				var kept []docCase
+				for i := 0; i < len(docs); i += 5 {
+					kept = append(kept, docs[i])
+				}
+				validateFirstOn = other
+				_, _, ok2 := validateBatch(c, devs, ss, smallSDL, kept, func(dc docCase, o valObs, class string, spec, real []string) {
+					c.Violation(fmt.Sprintf("%s [small scope, document validated against another schema first]: specification finds violated rules %v, validator reported %v: %q (small schema)", class, spec, real, dc.text),
+						map[string]any{"sdl": smallSDL, "sdl_before": smallSDLBefore, "query": dc.text, "what": class, "spec_rules": spec, "real_rules": real, "errors": fmt.Sprint(o.Errs)})
+				})
+				validateFirstOn = nil
+				if !ok2 {
+					return
+				}
+				c.Logf("small scope: %d of these documents validated against another schema first", len(kept))
+			} else {
+				c.Internal("variant of the small schema does not load: %s %s", l2.Err, crash2)
+			}
 		} else {
 			c.Internal("small schema does not load: %s %s", l.Err, crash)
 		}
